@@ -467,3 +467,77 @@ def path_prefix_check(repo, chk, rule, modnames, triaged=None, checked=None, flo
                    'a plain string prefix: `/a/pkg` also matches `/a/pkg2/x.py`', key='path-prefix|%s:%s|%s' % key)
     chk.floor(rule, len(sites), floor, '(string-prefix tests between paths)')
     return sites
+
+
+# ---------------------------------------------------------------------------- STR-vs-PATH rule
+_PATH_ATTRS = {'parent', 'parents'}
+_PATH_METHODS = {'absolute', 'resolve', 'joinpath', 'with_suffix', 'with_name', 'relative_to', 'expanduser', 'py__file__'}
+_STR_FUNCS = {'str', 'abspath', 'realpath', 'normpath', 'dirname', 'basename', 'join', 'as_posix', 'fspath', 'getcwd'}
+
+
+def path_kind(f, e, self_attrs=None, depth=0):
+    """'path' (a pathlib.Path), 'str' (a path in string form) or None (unknown) for expression e in function f.  Deliberately
+    conservative: only constructions whose kind is certain are classified."""
+    if depth > 3:
+        return None
+    if isinstance(e, ast.Call):
+        cn = call_name(e)
+        if cn == 'Path':
+            return 'path'
+        if cn in _PATH_METHODS and isinstance(e.func, ast.Attribute):
+            return 'path'
+        if cn in _STR_FUNCS:
+            return 'str'
+    if isinstance(e, ast.JoinedStr) or (isinstance(e, ast.Constant) and isinstance(e.value, str)):
+        return 'str'
+    if isinstance(e, ast.BinOp) and isinstance(e.op, ast.Div) and path_kind(f, e.left, self_attrs, depth + 1) == 'path':
+        return 'path'
+    if isinstance(e, ast.Attribute):
+        if e.attr in _PATH_ATTRS and path_kind(f, e.value, self_attrs, depth + 1) == 'path':
+            return 'path'
+        if norm(e.value) == 'self' and self_attrs:
+            mod = getattr(e, '_mod', None)
+            return self_attrs.get((mod.name if mod else None, e.attr))
+    if isinstance(e, ast.Name):
+        for n in ast.walk(f):
+            if isinstance(n, (ast.For, ast.comprehension)) and isinstance(n.target, ast.Name) and n.target.id == e.id:
+                if 'sys_path' in norm(n.iter):
+                    return 'str'        # search path entries are strings everywhere in jedi (sys.path convention)
+        ks = set()
+        for a in stmts_in(f, ast.Assign):
+            if any(isinstance(t, ast.Name) and t.id == e.id for t in a.targets):
+                ks.add(path_kind(f, a.value, self_attrs, depth + 1))
+        if len(ks) == 1:
+            return ks.pop()
+    return None
+
+
+def self_path_attrs(repo):
+    """(module, attr) -> kind for `self.<attr> = <path-kind expr>` assignments in __init__ methods"""
+    out = {}
+    for m in repo.modules.values():
+        for q, f in m.defs.items():
+            if isinstance(f, FUNC_TYPES) and f.name == '__init__':
+                for a in stmts_in(f, ast.Assign):
+                    for t in a.targets:
+                        if isinstance(t, ast.Attribute) and norm(t.value) == 'self':
+                            k = path_kind(f, a.value)
+                            if k:
+                                out[(m.name, t.attr)] = k
+    return out
+
+
+def str_path_comparisons(repo):
+    """[(func, qual, compare, kind_left, kind_right)] for ==/!= between a Path and a path string (never equal in Python)"""
+    sa = self_path_attrs(repo)
+    out = []
+    for m in sorted(repo.modules.values(), key=lambda m: m.name):
+        for q, f in sorted(m.defs.items()):
+            if not isinstance(f, FUNC_TYPES):
+                continue
+            for c in own_nodes(f):
+                if isinstance(c, ast.Compare) and len(c.ops) == 1 and isinstance(c.ops[0], (ast.Eq, ast.NotEq)):
+                    a, b = path_kind(f, c.left, sa), path_kind(f, c.comparators[0], sa)
+                    if a and b and a != b:
+                        out.append((f, q, c, a, b))
+    return out, sa
